@@ -155,7 +155,7 @@ def gen(ctx):
         cases.append(("i.le %s %s" % (hex16(*a), hex16(*b)), ("le", a, b)))
     # --- epoch conversions (library both directions, daemon timestamp)
     for _ in range(n // 2):
-        a = rand_inst(rng, rng.choice(["sec", "ms"]), 1970, HI)
+        a = rand_inst(rng, rng.choice(["sec", "ms"]), rng.choice([LO, 1970, 1970]), HI)     # (before 1970 the unix time is negative)
         cases.append(("i.toepoch %s" % hex16(*a), ("toepoch", a)))
         t = (absms(a) - EPOCH_ORD * MSD) // 1000
         cases.append(("i.frepoch %d" % t, ("frepoch", t)))
@@ -167,7 +167,7 @@ def gen(ctx):
             b = b[:2] + (28,) + b[3:]       # (2100, 2200, 2300 have no leap day)
         cases.append(("i.tstamp %s" % hex16(*b), ("tstamp", b)))
     if thorough:
-        for o in range(EPOCH_ORD, datetime.date(HI, 12, 31).toordinal() + 1):
+        for o in range(datetime.date(LO, 1, 1).toordinal(), datetime.date(HI, 12, 31).toordinal() + 1):
             dt = datetime.date.fromordinal(o)
             a = (dt.year, dt.month, dt.day, 23, 59, 59, 1023)
             cases.append(("i.toepoch %s" % hex16(*a), ("toepoch", a)))
